@@ -37,12 +37,20 @@ def spec(self, dom):
     self._boxes = []
 ''', params=lambda ex: ([VObject('cat.Id'), ex.sym_ty('dom')], {}))
 
-contract('cat.Box.__init__', is_init=True, spec='''
+def _p_cat_box_init(ex):
+    kw = [{}, {'data': VVal(z3.Const('data', T.ValS)), '_dagger': ex.sym_bool('flag')}][ex.fork(2)]
+    return [VObject('cat.Box'), VVal(z3.Const('name', T.ValS)), ex.sym_ty('dom'), ex.sym_ty('cod')], kw
+
+
+contract('cat.Box.__init__', is_init=True, property_ids=('C01', 'C02'), spec='''
 def spec(self, name, dom, cod, **params):
     self._name = name
     self._dom = dom
     self._cod = cod
-''', params=None)
+    self._boxes = [self]
+    self._dagger = params.get("_dagger", False)
+    self._data = params.get("data", None)
+''', params=_p_cat_box_init)
 
 
 def _p_then(ex):
